@@ -411,6 +411,35 @@ let relay_case (c : string) : string =
 
 let engine_relay (cases : string) = iter_lines cases (fun c -> print_endline (relay_case c))
 
+(* ---------------------------------------------------------------- listener engine *)
+let hex_list (l : byte list list) : string =
+  if l = [] then "none" else String.concat "," (List.map hex_of_bytes l)
+
+let listener_case (c : string) : string =
+  let f = Array.of_list (split_ws c) in
+  let framed (lines : byte list list) (toolong : bool) (relay : string) =
+    let calls = List.map (fun l -> if l = [] then "e" else hex_of_bytes l) lines in
+    let relayed = if relay = "1" then hex_list (List.filter (fun l -> l <> []) lines) else "off" in
+    Printf.sprintf "lines=%s calls=%s L=%d toolong=%d tcperr=0 relayed=%s" (hex_list lines)
+      (if calls = [] then "-" else String.concat "," calls) (List.length lines) (if toolong then 1 else 0) relayed in
+  match f.(0) with
+  | "U" | "X" -> framed (packet_lines (bytes_of_hex f.(1))) false f.(2)
+  | "T" -> let (ls, closed) = tcp_lines (bytes_of_hex f.(1)) in framed ls closed f.(3)
+  | "P" ->
+    let q = ref (pq_new (nat_of_int (int_of_string f.(1)))) in
+    List.iter (fun op ->
+      if op = "D" then q := pq_step !q PProcess
+      else q := pq_step !q (PRecv (bytes_of_hex (String.sub op 1 (String.length op - 1)))))
+      (String.split_on_char ',' f.(2));
+    let lines = List.concat_map packet_lines (!q).pq_processed in
+    let calls = List.map (fun l -> if l = [] then "e" else hex_of_bytes l) lines in
+    Printf.sprintf "lines=%s calls=%s L=%d udp=%d drops=%d queued=%d" (hex_list lines)
+      (if calls = [] then "" else String.concat "," calls) (List.length lines) (int_of_nat (!q).pq_packets)
+      (int_of_nat (!q).pq_drops) (List.length (!q).pq_queue)
+  | _ -> "BADCASE"
+
+let engine_listener (cases : string) = iter_lines cases (fun c -> print_endline (listener_case c))
+
 (* ---------------------------------------------------------------- model-internal self test:
    fsm_get_mapping against first_match / most_specific on an exhaustive small scope
    (a TEST of the theorem statements, not a proof) *)
@@ -464,5 +493,6 @@ let () =
   | _ :: "pipeline" :: cases :: hxout :: _ -> engine_pipeline cases hxout
   | _ :: "queue" :: cases :: _ -> engine_queue cases
   | _ :: "relay" :: cases :: _ -> engine_relay cases
+  | _ :: "listener" :: cases :: _ -> engine_listener cases
   | _ :: "selftest-fsm" :: n :: _ -> selftest_fsm (int_of_string n)
   | _ -> prerr_endline "usage: runner <engine> <casefile> [hx output]"; exit 2
